@@ -1,8 +1,112 @@
-/* std::string model: bytes + length. */
+/* std::string model: bytes + length, d[n] == 0 (DESIGN.md 3.2).
+   s[i] is inline C (i <= n is legal, beyond is a failing pointer check in the caller).
+   Proof mode:   searching / slicing / growing members are contract stubs.  Character-class facts are expressed with
+                 uninterpreted predicates over (string, set, position) so that progress arguments (termination) go through;
+                 substr raises std::out_of_range for pos > size (NOT a library exception: an obligation of C16);
+                 contents of results are unspecified.
+   Bounded mode: executable, every string owns STR_BCAP bytes. */
 #ifndef VERIF_STR_H
 #define VERIF_STR_H
 #include "verif.h"
 typedef struct Str { char *d; unsigned long n; } Str;
 #define STR_NPOS (~0UL)
 #define STR_CAP 65536UL
+#ifndef STR_BCAP
+#define STR_BCAP 16
+#endif
+#define STR_FRESH(s) ((s)->n < STR_CAP && __CPROVER_is_fresh((s)->d, (s)->n + 1) && (s)->d[(s)->n] == 0)
+#define STR_OBJ(s) (__CPROVER_is_fresh(s, sizeof(Str)) && STR_FRESH(s))
+
+static inline unsigned long Str__size(const Str *s) { return s->n; }
+static inline unsigned long Str__length(const Str *s) { return s->n; }
+static inline _Bool Str__empty(const Str *s) { return s->n == 0; }
+static inline char *Str__op_index(const Str *s, unsigned long i) { return &s->d[i]; }
+static inline char *Str__begin(const Str *s) { return s->d; }
+static inline char *Str__end(const Str *s) { return s->d + s->n; }
+static inline char *Str__c_str(const Str *s) { return s->d; }
+static inline unsigned long verif_cstrlen(const char *p) { unsigned long k = 0; while (p[k]) ++k; return k; }
+
+#ifdef VERIF_MODE_BOUNDED
+static inline void Str__ctor_0(Str *s) { s->d = (char*)verif_new_array(STR_BCAP, 1); s->n = 0; s->d[0] = 0; }
+static inline Str Str__make_0(void) { Str r; Str__ctor_0(&r); return r; }
+static inline void verif_str_set(Str *s, const char *p, unsigned long n) {
+  __CPROVER_assert(n < STR_BCAP, "verif_model_bound: string longer than the bounded model holds"); __CPROVER_assume(n < STR_BCAP);
+  char *nd = (char*)verif_new_array(STR_BCAP, 1); for (unsigned long i = 0; i < STR_BCAP; ++i) { if (i < n) nd[i] = p[i]; } nd[n] = 0; s->d = nd; s->n = n; }
+static inline void Str__ctor_copy(Str *s, const Str *o) { verif_str_set(s, o->d, o->n); }
+static inline Str Str__make_copy(const Str *o) { Str r; Str__ctor_copy(&r, o); return r; }
+static inline void Str__ctor_cstr(Str *s, const char *p) { unsigned long k = 0; for (unsigned long i = 0; i < STR_BCAP; ++i) { if (!p[k]) break; ++k; } verif_str_set(s, p, k); }
+static inline Str Str__make_cstr(const char *p) { Str r; Str__ctor_cstr(&r, p); return r; }
+static inline Str *Str__op_assign(Str *s, const Str *o) { if (s != o) verif_str_set(s, o->d, o->n); return s; }
+static inline Str *Str__op_assign_move(Str *s, Str *o) { *s = *o; return s; }
+static inline Str *Str__op_pluseq_c(Str *s, char c) { __CPROVER_assert(s->n + 1 < STR_BCAP, "verif_model_bound: string longer than the bounded model holds"); __CPROVER_assume(s->n + 1 < STR_BCAP);
+  char *nd = (char*)verif_new_array(STR_BCAP, 1); for (unsigned long i = 0; i < STR_BCAP; ++i) { if (i < s->n) nd[i] = s->d[i]; } nd[s->n] = c; nd[s->n + 1] = 0; s->d = nd; s->n = s->n + 1; return s; }
+static inline Str *Str__op_pluseq(Str *s, const Str *o) { unsigned long m = s->n + o->n; __CPROVER_assert(m < STR_BCAP, "verif_model_bound: string longer than the bounded model holds"); __CPROVER_assume(m < STR_BCAP);
+  char *nd = (char*)verif_new_array(STR_BCAP, 1); for (unsigned long i = 0; i < STR_BCAP; ++i) { if (i < s->n) nd[i] = s->d[i]; else if (i < m) nd[i] = o->d[i - s->n]; } nd[m] = 0; s->d = nd; s->n = m; return s; }
+static inline Str Str__concat(const Str *a, const Str *b) { Str r; Str__ctor_copy(&r, a); Str__op_pluseq(&r, b); return r; }
+static inline Str Str__substr(const Str *s, unsigned long pos, unsigned long len) { Str r; r.d = 0; r.n = 0;
+  if (pos > s->n) { verif_exc = EXC_std_out_of_range; return r; }
+  unsigned long m = s->n - pos; if (len < m) m = len; verif_str_set(&r, s->d + pos, m); return r; }
+static inline _Bool Str__eq(const Str *a, const Str *b) { if (a->n != b->n) return 0; for (unsigned long i = 0; i < STR_BCAP; ++i) { if (i < a->n && a->d[i] != b->d[i]) return 0; } return 1; }
+static inline _Bool Str__eq_cstr(const Str *a, const char *p) { for (unsigned long i = 0; i < STR_BCAP; ++i) { if (i < a->n) { if (p[i] == 0 || p[i] != a->d[i]) return 0; } else return p[i] == 0; } return 0; }
+static inline _Bool verif_in_set(const char *set, unsigned long m, char c) { for (unsigned long k = 0; k < STR_BCAP; ++k) { if (k < m && set[k] == c) return 1; } return 0; }
+static inline unsigned long Str__find_first_of_n(const Str *s, const char *set, unsigned long m, unsigned long pos) { for (unsigned long i = 0; i < STR_BCAP; ++i) { if (i >= pos && i < s->n && verif_in_set(set, m, s->d[i])) return i; } return STR_NPOS; }
+static inline unsigned long Str__find_first_not_of_n(const Str *s, const char *set, unsigned long m, unsigned long pos) { for (unsigned long i = 0; i < STR_BCAP; ++i) { if (i >= pos && i < s->n && !verif_in_set(set, m, s->d[i])) return i; } return STR_NPOS; }
+static inline unsigned long Str__find_n(const Str *s, const char *pat, unsigned long m, unsigned long pos) {
+  for (unsigned long i = 0; i < STR_BCAP; ++i) { if (i >= pos && i + m <= s->n) { _Bool ok = 1; for (unsigned long k = 0; k < STR_BCAP; ++k) { if (k < m && s->d[i + k] != pat[k]) ok = 0; } if (ok) return i; } } return STR_NPOS; }
+static inline unsigned long Str__find_last_of_n(const Str *s, const char *set, unsigned long m) { unsigned long r = STR_NPOS; for (unsigned long i = 0; i < STR_BCAP; ++i) { if (i < s->n && verif_in_set(set, m, s->d[i])) r = i; } return r; }
+#else
+/* ---- proof mode: uninterpreted character-class predicates ---- */
+_Bool __CPROVER_uninterpreted_inset(const void *s, const void *set, unsigned long k);      /* s[k] is a member of set */
+_Bool __CPROVER_uninterpreted_matchat(const void *s, const void *pat, unsigned long k);    /* pat occurs in s at position k */
+#define STR_INSET(s, set, k) __CPROVER_uninterpreted_inset((const void*)(s), (const void*)(set), k)
+#define STR_MATCH(s, pat, k) __CPROVER_uninterpreted_matchat((const void*)(s), (const void*)(pat), k)
+static inline void Str__ctor_0(Str *s) { s->d = (char*)verif_new(1); s->d[0] = 0; s->n = 0; }
+static inline Str Str__make_0(void) { Str r; Str__ctor_0(&r); return r; }
+void Str__ctor_copy(Str *s, const Str *o)
+  __CPROVER_requires(o->n < STR_CAP) __CPROVER_ensures(s->n == o->n && __CPROVER_is_fresh(s->d, s->n + 1) && s->d[s->n] == 0) __CPROVER_assigns(s->d, s->n);
+Str Str__make_copy(const Str *o)
+  __CPROVER_requires(o->n < STR_CAP) __CPROVER_ensures(__CPROVER_return_value.n == o->n && __CPROVER_is_fresh(__CPROVER_return_value.d, o->n + 1) && __CPROVER_return_value.d[o->n] == 0) __CPROVER_assigns();
+Str Str__make_cstr(const char *p)
+  __CPROVER_requires(1) __CPROVER_ensures(__CPROVER_return_value.n < STR_CAP && __CPROVER_is_fresh(__CPROVER_return_value.d, __CPROVER_return_value.n + 1) && __CPROVER_return_value.d[__CPROVER_return_value.n] == 0) __CPROVER_assigns();
+Str *Str__op_assign(Str *s, const Str *o)
+  __CPROVER_requires(o->n < STR_CAP) __CPROVER_ensures(__CPROVER_return_value == s && s->n == o->n && __CPROVER_is_fresh(s->d, s->n + 1) && s->d[s->n] == 0) __CPROVER_assigns(s->d, s->n);
+/* growth: the new length is exact; the storage is fresh only when the length is inside the cap of the memory model */
+Str *Str__op_pluseq_c(Str *s, char c)
+  __CPROVER_requires(1) __CPROVER_ensures(__CPROVER_return_value == s && s->n == __CPROVER_old(s->n) + 1 && (s->n < STR_CAP ==> (__CPROVER_is_fresh(s->d, s->n + 1) && s->d[s->n] == 0))) __CPROVER_assigns(s->d, s->n);
+Str *Str__op_pluseq(Str *s, const Str *o)
+  __CPROVER_requires(1) __CPROVER_ensures(__CPROVER_return_value == s && s->n == __CPROVER_old(s->n) + o->n && (s->n < STR_CAP ==> (__CPROVER_is_fresh(s->d, s->n + 1) && s->d[s->n] == 0))) __CPROVER_assigns(s->d, s->n);
+Str Str__concat(const Str *a, const Str *b)
+  __CPROVER_requires(1) __CPROVER_ensures(__CPROVER_return_value.n == a->n + b->n && (__CPROVER_return_value.n < STR_CAP ==> (__CPROVER_is_fresh(__CPROVER_return_value.d, __CPROVER_return_value.n + 1) && __CPROVER_return_value.d[__CPROVER_return_value.n] == 0))) __CPROVER_assigns();
+/* substr: pos > size() raises std::out_of_range, which is not an exception of the library */
+Str Str__substr(const Str *s, unsigned long pos, unsigned long len)
+  __CPROVER_requires(s->n < STR_CAP)
+  __CPROVER_ensures(pos > s->n ==> verif_exc == EXC_std_out_of_range)
+  __CPROVER_ensures(pos <= s->n ==> (verif_exc == __CPROVER_old(verif_exc) && __CPROVER_return_value.n == (len < s->n - pos ? len : s->n - pos) && __CPROVER_is_fresh(__CPROVER_return_value.d, __CPROVER_return_value.n + 1) && __CPROVER_return_value.d[__CPROVER_return_value.n] == 0))
+  __CPROVER_assigns(verif_exc);
+_Bool Str__eq(const Str *a, const Str *b) __CPROVER_requires(1) __CPROVER_ensures(__CPROVER_return_value ==> a->n == b->n) __CPROVER_assigns();
+_Bool Str__eq_cstr(const Str *a, const char *p) __CPROVER_requires(1) __CPROVER_ensures(1) __CPROVER_assigns();
+/* find_first_of / find_first_not_of / find: result is npos or a position >= pos inside the string with the stated character-class fact */
+unsigned long Str__find_first_of_n(const Str *s, const char *set, unsigned long m, unsigned long pos)
+  __CPROVER_requires(1)
+  __CPROVER_ensures(__CPROVER_return_value == STR_NPOS || (__CPROVER_return_value >= pos && __CPROVER_return_value < s->n && STR_INSET(s, set, __CPROVER_return_value)))
+  __CPROVER_assigns();
+unsigned long Str__find_first_not_of_n(const Str *s, const char *set, unsigned long m, unsigned long pos)
+  __CPROVER_requires(1)
+  __CPROVER_ensures(__CPROVER_return_value == STR_NPOS || (__CPROVER_return_value >= pos && __CPROVER_return_value < s->n && !STR_INSET(s, set, __CPROVER_return_value)))
+  __CPROVER_assigns();
+unsigned long Str__find_n(const Str *s, const char *pat, unsigned long m, unsigned long pos)
+  __CPROVER_requires(1)
+  __CPROVER_ensures(__CPROVER_return_value == STR_NPOS || (__CPROVER_return_value >= pos && __CPROVER_return_value + m <= s->n && __CPROVER_return_value + m >= __CPROVER_return_value && STR_MATCH(s, pat, __CPROVER_return_value)))
+  __CPROVER_ensures((m == 0 && pos <= s->n) ==> __CPROVER_return_value == pos)
+  __CPROVER_assigns();
+unsigned long Str__find_last_of_n(const Str *s, const char *set, unsigned long m)
+  __CPROVER_requires(1)
+  __CPROVER_ensures(__CPROVER_return_value == STR_NPOS || (__CPROVER_return_value < s->n && STR_INSET(s, set, __CPROVER_return_value)))
+  __CPROVER_assigns();
+#endif
+/* overloads of the searching members, all expressed with the (pointer, length) forms above */
+static inline unsigned long Str__find_first_of(const Str *s, const Str *set, unsigned long pos) { return Str__find_first_of_n(s, set->d, set->n, pos); }
+static inline unsigned long Str__find_first_not_of(const Str *s, const Str *set, unsigned long pos) { return Str__find_first_not_of_n(s, set->d, set->n, pos); }
+static inline unsigned long Str__find(const Str *s, const Str *pat, unsigned long pos) { return Str__find_n(s, pat->d, pat->n, pos); }
+static inline unsigned long Str__find_last_of(const Str *s, const Str *set, unsigned long pos) { return Str__find_last_of_n(s, set->d, set->n); }
 #endif
